@@ -94,13 +94,14 @@ type grExec struct {
 	units    map[int]*acmelib.SignalUnit
 	sigs     map[int]*acmelib.StandardSignal
 
-	netID     map[*acmelib.Network]int
-	busID     map[*acmelib.Bus]int
-	nodeID    map[*acmelib.Node]int
-	ifaceID   map[*acmelib.NodeInterface]int
-	msgID     map[*acmelib.Message]int
-	builderID map[*acmelib.CANIDBuilder]int
-	entID     map[acmelib.EntityID]int
+	netID       map[*acmelib.Network]int
+	busID       map[*acmelib.Bus]int
+	nodeID      map[*acmelib.Node]int
+	ifaceID     map[*acmelib.NodeInterface]int
+	msgID       map[*acmelib.Message]int
+	builderID   map[*acmelib.CANIDBuilder]int
+	oldDefaults []*acmelib.CANIDBuilder // default builders that were replaced (C05: they must have no references left)
+	entID       map[acmelib.EntityID]int
 
 	// independent bookkeeping: the interfaces of each node that were created and not removed
 	live map[int][]int
@@ -878,6 +879,15 @@ func (e *grExec) checkC05(where string) {
 			e.fail("C05", "refs-not-exact:canid-builder", sprintf("%s: builder %d references %s (count %d), used by %s", where, id, intsStr(got), c.ReferenceCount(), intsStr(want)))
 		}
 	}
+	for _, old := range e.oldDefaults {
+		inUse := false
+		for _, b := range e.buses {
+			inUse = inUse || b.CANIDBuilder() == old
+		}
+		if !inUse && (len(old.References()) != 0 || old.ReferenceCount() != 0) {
+			e.fail("C05", "refs-not-exact:canid-builder", sprintf("%s: a default builder that was replaced still has %d references", where, old.ReferenceCount()))
+		}
+	}
 	for _, bid := range sortedKeys(e.buses) {
 		b := e.buses[bid]
 		c := b.CANIDBuilder()
@@ -1235,6 +1245,12 @@ func (e *grExec) mutate(cmd string, a []string) (out string) {
 		var c *acmelib.CANIDBuilder
 		if a[1] != "-" {
 			c = e.builders[id(1)]
+		}
+		// a default builder that is being replaced must let go of the bus: keep a handle on it
+		if old := b.CANIDBuilder(); old != nil {
+			if _, user := e.builderID[old]; !user {
+				e.oldDefaults = append(e.oldDefaults, old)
+			}
 		}
 		b.SetCANIDBuilder(c)
 		return "ok"
@@ -1984,8 +2000,48 @@ func (g *grGen) step() {
 		g.staticVsGenerated()
 	case k < 198:
 		g.multiBusNode()
+	case k < 199:
+		g.staticZeroDetach()
 	default:
 		g.observe()
+	}
+}
+
+// staticZeroDetach: a message with the static CAN-ID 0 (the zero value of the field) on one
+// interface of a bus and a message WITHOUT static CAN-ID on another interface; the second
+// interface is detached (and attached again): the key 0 must still be taken on the bus.
+func (g *grGen) staticZeroDetach() {
+	if len(g.buses) == 0 {
+		return
+	}
+	r := g.r
+	b := g.buses[r.Intn(len(g.buses))]
+	nx, ix, ny, iy := g.fresh(), g.fresh(), g.fresh(), g.fresh()
+	if g.emit(sprintf("gr node.new %d zx%d %d 1 %d", nx, nx, 60+r.Intn(4), ix)) != "ok" {
+		return
+	}
+	g.nodes = append(g.nodes, nx)
+	g.ifaces = append(g.ifaces, ix)
+	if g.emit(sprintf("gr node.new %d zy%d %d 1 %d", ny, ny, 70+r.Intn(4), iy)) != "ok" {
+		return
+	}
+	g.nodes = append(g.nodes, ny)
+	g.ifaces = append(g.ifaces, iy)
+	mx, my := g.fresh(), g.fresh()
+	g.emit(sprintf("gr msg.new %d zsx%d %d 8", mx, mx, 500+r.Intn(50)))
+	g.emit(sprintf("gr msg.static %d 0", mx))
+	g.emit(sprintf("gr msg.new %d zsy%d %d 8", my, my, 600+r.Intn(50)))
+	g.msgs = append(g.msgs, mx, my)
+	g.emit(sprintf("gr iface.addSent %d %d", ix, mx))
+	g.emit(sprintf("gr iface.addSent %d %d", iy, my))
+	g.emit(sprintf("gr bus.addIface %d %d", b, ix))
+	g.emit(sprintf("gr bus.addIface %d %d", b, iy))
+	g.emit(sprintf("gr bus.rmIface %d %d", b, ny))
+	g.emit(sprintf("gr probe.busstatic %d 0", b))
+	g.emit(sprintf("gr dump.bus %d", b))
+	if r.Intn(2) == 0 {
+		g.emit(sprintf("gr bus.addIface %d %d", b, iy))
+		g.emit(sprintf("gr dump.bus %d", b))
 	}
 }
 
